@@ -67,8 +67,9 @@ vars == <<c, done>>
 Crystals == {"Si", "Cu", "Fe", "Po", "orthoA", "orthoB", "orthoC", "Mg", "NaCl", "CsCl"}
 Init == /\ \/ \E x \in Crystals, th \in BOOLEAN, occ \in BOOLEAN, gm \in 1..2, lz \in BOOLEAN :
                  c = [k |-> "sf", crystal |-> x, thermal |-> th, partial_occupancy |-> occ, g_max |-> gm, lazy |-> lz]
-           \/ \E x \in Crystals, o \in 1..4, e \in 1..2, sg \in 1..2, gm \in 1..2, weq \in BOOLEAN :
-                 c = [k |-> "dyn", crystal |-> x, orientation |-> o, energy |-> e, sg_max |-> sg, g_max |-> gm, use_wave_eq |-> weq]
+           \* order: how the requested thickness list is arranged (each row must belong to the thickness it is requested for)
+           \/ \E x \in Crystals, o \in 1..4, e \in 1..2, sg \in 1..2, gm \in 1..2, weq \in BOOLEAN, ord \in {"ascending", "descending", "unsorted", "repeated"} :
+                 c = [k |-> "dyn", crystal |-> x, orientation |-> o, energy |-> e, sg_max |-> sg, g_max |-> gm, use_wave_eq |-> weq, order |-> ord]
         /\ done = FALSE
 Next == ~done /\ done' = TRUE /\ UNCHANGED c
 Spec == Init /\ [][Next]_vars
